@@ -109,5 +109,33 @@ pub assume_specification [std::cmp::Ordering::is_ne] (o: Ordering) -> (r: bool) 
 //@use arith.fns ::load#w_cmp_eq
 //@use arith.fns ::load#w_cmp_ne
 
+// the function-path bindings of the word table (Rword + same_as)
+//@use arithwords.fns ::load#w__plus
+//@use arithwords.fns ::load#w__
+//@use arithwords.fns ::load#w__star
+//@use arithwords.fns ::load#w__slash
+//@use arithwords.fns ::load#w_neg
+//@use arithwords.fns ::load#w_abs
+//@use arithwords.fns ::load#w_rem
+//@use arithwords.fns ::load#w_and
+//@use arithwords.fns ::load#w_or
+//@use arithwords.fns ::load#w_xor
+//@use arithwords.fns ::load#w_not
+//@use arithwords.fns ::load#w_band
+//@use arithwords.fns ::load#w_bor
+//@use arithwords.fns ::load#w_bxor
+//@use arithwords.fns ::load#w_bnot
+//@use arithwords.fns ::load#w_bsl
+//@use arithwords.fns ::load#w_bsr
+//@use arithwords.fns ::load#w_round
+//@use arithwords.fns ::load#w_min
+//@use arithwords.fns ::load#w_max
+//@use arithwords.fns ::load#w__toreal
+//@use arithwords.fns ::load#w__toint
+//@use arithwords.fns ::load#w_zero_q
+//@use arithwords.fns ::load#w_positive_q
+//@use arithwords.fns ::load#w_negative_q
+//@use arithwords.fns ::load#w_popcnt
+
 } // verus!
 fn main() {}
